@@ -30,6 +30,7 @@ def run(ctx):
     ctx.call(GR.name_forms, "7n")
     ctx.call(GR.node_objects, "8")
     ctx.call(GR.worker_symmetry, "9")
+    ctx.call(GR.flat_expansion, "10")
 
 
 NODE = "cartgraph/node.py"
